@@ -83,6 +83,25 @@ theorem or_and_distrib (a b c : M) (ha : GAll (Good env) a) (hb : GAll (Good env
 
 end markers
 
+/-- the ten marker laws with the bridge facts proved (C02.bridge): no assumption beyond `EnvTotal`
+    and good atoms -/
+theorem marker_laws_final (env : Env) (he : EnvTotal env) (fuel : Nat) (a b c : M)
+    (ha : GAll (Good env) a) (hb : GAll (Good env) b) (hc : GAll (Good env) c) :
+    sem env (M.and fuel a b) = sem env (M.and fuel b a) ∧
+    sem env (M.or fuel a b) = sem env (M.or fuel b a) ∧
+    sem env (M.and fuel (M.and fuel a b) c) = sem env (M.and fuel a (M.and fuel b c)) ∧
+    sem env (M.or fuel (M.or fuel a b) c) = sem env (M.or fuel a (M.or fuel b c)) ∧
+    sem env (M.and fuel a a) = sem env a ∧ sem env (M.or fuel a a) = sem env a ∧
+    sem env (M.and fuel a (M.or fuel a b)) = sem env a ∧ sem env (M.or fuel a (M.and fuel a b)) = sem env a ∧
+    sem env (M.and fuel a (M.or fuel b c)) = sem env (M.or fuel (M.and fuel a b) (M.and fuel a c)) ∧
+    sem env (M.or fuel a (M.and fuel b c)) = sem env (M.and fuel (M.or fuel a b) (M.or fuel a c)) :=
+  let x := C02.bridge env he
+  ⟨and_comm env he x.1 x.2 fuel a b ha hb, or_comm env he x.1 x.2 fuel a b ha hb,
+   and_assoc env he x.1 x.2 fuel a b c ha hb hc, or_assoc env he x.1 x.2 fuel a b c ha hb hc,
+   and_idem env he x.1 x.2 fuel a ha, or_idem env he x.1 x.2 fuel a ha,
+   absorb_and_or env he x.1 x.2 fuel a b ha hb, absorb_or_and env he x.1 x.2 fuel a b ha hb,
+   and_or_distrib env he x.1 x.2 fuel a b c ha hb hc, or_and_distrib env he x.1 x.2 fuel a b c ha hb hc⟩
+
 section specs
 open Spec
 variable {α : Type} [LinPre α]
